@@ -86,7 +86,7 @@ impl Ledger {
 
 fn new_uid() -> u64 {
     let uid = NEXT_UID.fetch_add(1, Ordering::Relaxed);
-    LEDGER.with(|l| {
+    crate::valloc::own(|| LEDGER.with(|l| {
         let mut l = l.borrow_mut();
         if l.state.is_empty() { l.base = uid; }
         let idx = (uid - l.base) as usize;
@@ -94,7 +94,7 @@ fn new_uid() -> u64 {
         l.state[idx] = 1;
         l.live += 1;
         l.created_total += 1;
-    });
+    }));
     uid
 }
 
@@ -102,7 +102,7 @@ fn new_uid() -> u64 {
 fn on_drop(uid: u64) -> bool {
     // never panics
     let mut first = true;
-    let _ = LEDGER.try_with(|l| {
+    let _ = crate::valloc::own(|| LEDGER.try_with(|l| {
         let mut l = match l.try_borrow_mut() { Ok(l) => l, Err(_) => return };
         l.dropped_total += 1;
         if let Some(w) = l.window.as_mut() { w.push(uid); }
@@ -116,7 +116,7 @@ fn on_drop(uid: u64) -> bool {
             1 => { l.state[idx] = 2; l.live -= 1; }
             n => { l.state[idx] = n.saturating_add(1); let m = format!("double drop of uid {} (drop #{})", uid, n); l.errors.push(m); first = false; }
         }
-    });
+    }));
     first
 }
 
@@ -166,7 +166,7 @@ pub struct TKey {
 impl TKey {
     pub fn new(id: u32, heap: usize) -> TKey {
         let uid = new_uid();
-        TKey { id, uid, heap, live: std::mem::ManuallyDrop::new(Box::new(uid)) }
+        TKey { id, uid, heap, live: std::mem::ManuallyDrop::new(crate::valloc::own(|| Box::new(uid))) }
     }
     /// reads through the owned allocation (a real memory access for the sanitizers)
     pub fn check_live(&self) -> bool { **self.live == self.uid }
@@ -225,7 +225,7 @@ pub struct TVal {
 impl TVal {
     pub fn new(heap: usize) -> TVal {
         let uid = new_uid();
-        TVal { uid, heap, stamp: 0, live: std::mem::ManuallyDrop::new(Box::new(uid)) }
+        TVal { uid, heap, stamp: 0, live: std::mem::ManuallyDrop::new(crate::valloc::own(|| Box::new(uid))) }
     }
     pub fn check_live(&self) -> bool { **self.live == self.uid }
 }
